@@ -8,6 +8,9 @@ use std::panic::AssertUnwindSafe;
 
 pub fn object_data(seed: u64, f: usize) -> Vec<u8> {
     let mut rng = StdRng::seed_from_u64(seed ^ 0xD1CE ^ ((f as u64) << 16));
+    if (seed ^ f as u64) % 3 == 0 {
+        return crate::util::runs_data(&mut rng, f);
+    }
     (0..f).map(|_| rng.random()).collect()
 }
 
